@@ -16,6 +16,17 @@ func init() {
 	DynamicEvaluators[","] = NewComma()
 }
 
+// lastEvaluatedTOrUntyped returns the value left of a comma. Nothing may have been
+// evaluated yet (a line starting with ','), or the last result may be a list.
+func lastEvaluatedTOrUntyped(p *parser.Parser) *base.T {
+	t, ok := p.GetLastEvaluatedTPointer().(*base.T)
+	if !ok || t == nil {
+		return base.MakeUntyped()
+	}
+
+	return t
+}
+
 func (d *Comma) Evaluation(
 	e *Evaluator,
 	p *parser.Parser,
@@ -24,7 +35,7 @@ func (d *Comma) Evaluation(
 ) (err error) {
 
 	var tArray []*base.T
-	tArray = append(tArray, p.GetLastEvaluatedTPointer().(*base.T))
+	tArray = append(tArray, lastEvaluatedTOrUntyped(p))
 
 	for {
 		nextT, err := p.Read()
@@ -53,7 +64,7 @@ func (d *Comma) Evaluation(
 			return err
 		}
 
-		tArray = append(tArray, p.GetLastEvaluatedTPointer().(*base.T))
+		tArray = append(tArray, lastEvaluatedTOrUntyped(p))
 
 		nextT, err = p.Read()
 		if err != nil {
